@@ -301,8 +301,46 @@ package pilosa
 
 // Cluster messages off the wire (gossip NotifyMsg has no recover): the type byte and
 // the body length are chosen by the sender.
-//@ contract getMessage props C06
-//@   ensures true
+// The type byte a sender writes (getMessageType) selects the same Go type on the
+// receiving side (C27: a message survives encoding as the message it was).
+//@ contract getMessage props C06,C27
+//@   ensures typ == messageTypeCreateShard ==> typeis(result, P_CreateShardMessage)
+//@   ensures typ == messageTypeCreateIndex ==> typeis(result, P_CreateIndexMessage)
+//@   ensures typ == messageTypeDeleteIndex ==> typeis(result, P_DeleteIndexMessage)
+//@   ensures typ == messageTypeCreateField ==> typeis(result, P_CreateFieldMessage)
+//@   ensures typ == messageTypeDeleteField ==> typeis(result, P_DeleteFieldMessage)
+//@   ensures typ == messageTypeCreateView ==> typeis(result, P_CreateViewMessage)
+//@   ensures typ == messageTypeDeleteView ==> typeis(result, P_DeleteViewMessage)
+//@   ensures typ == messageTypeClusterStatus ==> typeis(result, P_ClusterStatus)
+//@   ensures typ == messageTypeResizeInstruction ==> typeis(result, P_ResizeInstruction)
+//@   ensures typ == messageTypeResizeInstructionComplete ==> typeis(result, P_ResizeInstructionComplete)
+//@   ensures typ == messageTypeSetCoordinator ==> typeis(result, P_SetCoordinatorMessage)
+//@   ensures typ == messageTypeUpdateCoordinator ==> typeis(result, P_UpdateCoordinatorMessage)
+//@   ensures typ == messageTypeNodeState ==> typeis(result, P_NodeStateMessage)
+//@   ensures typ == messageTypeRecalculateCaches ==> typeis(result, P_RecalculateCaches)
+//@   ensures typ == messageTypeNodeEvent ==> typeis(result, P_NodeEvent)
+//@   ensures typ == messageTypeNodeStatus ==> typeis(result, P_NodeStatus)
+//@   ensures typ == messageTypeDeleteAvailableShard ==> typeis(result, P_DeleteAvailableShardMessage)
+//@   ensures typ > messageTypeDeleteAvailableShard ==> result == nil
+//@ contract getMessageType props C27
+//@   requires m != nil
+//@   ensures typeis(m, P_CreateShardMessage) ==> result == messageTypeCreateShard
+//@   ensures typeis(m, P_CreateIndexMessage) ==> result == messageTypeCreateIndex
+//@   ensures typeis(m, P_DeleteIndexMessage) ==> result == messageTypeDeleteIndex
+//@   ensures typeis(m, P_CreateFieldMessage) ==> result == messageTypeCreateField
+//@   ensures typeis(m, P_DeleteFieldMessage) ==> result == messageTypeDeleteField
+//@   ensures typeis(m, P_CreateViewMessage) ==> result == messageTypeCreateView
+//@   ensures typeis(m, P_DeleteViewMessage) ==> result == messageTypeDeleteView
+//@   ensures typeis(m, P_ClusterStatus) ==> result == messageTypeClusterStatus
+//@   ensures typeis(m, P_ResizeInstruction) ==> result == messageTypeResizeInstruction
+//@   ensures typeis(m, P_ResizeInstructionComplete) ==> result == messageTypeResizeInstructionComplete
+//@   ensures typeis(m, P_SetCoordinatorMessage) ==> result == messageTypeSetCoordinator
+//@   ensures typeis(m, P_UpdateCoordinatorMessage) ==> result == messageTypeUpdateCoordinator
+//@   ensures typeis(m, P_NodeStateMessage) ==> result == messageTypeNodeState
+//@   ensures typeis(m, P_RecalculateCaches) ==> result == messageTypeRecalculateCaches
+//@   ensures typeis(m, P_NodeEvent) ==> result == messageTypeNodeEvent
+//@   ensures typeis(m, P_NodeStatus) ==> result == messageTypeNodeStatus
+//@   ensures typeis(m, P_DeleteAvailableShardMessage) ==> result == messageTypeDeleteAvailableShard
 //@ contract (*API).ClusterMessage props C06
 //@   requires api != nil && api.server != nil && api.cluster != nil
 //@ contract (*cluster).State props C06
